@@ -214,6 +214,10 @@ def solve_frames(tdgl, a, tmp):
                 cp = os.path.join(work, f"seedcopy{n}.h5")
                 sol.to_hdf5(cp)
                 seed = tdgl.Solution.from_hdf5(cp)
+            elif form == "reloaded_device":
+                # a new session: the seed is read back from its file and the continuation runs on the device stored in it
+                seed = tdgl.Solution.from_hdf5(sol.path)
+                dev = seed.device
             elif form == "cursor_moved":
                 sol.solve_step = 0          # history on the seed object: the cursor was moved and moved back
                 sol.solve_step = -1
